@@ -179,6 +179,119 @@ def arrayLeaf (toks : List Tok) : PRes (PExp × List Tok) :=
         else if bools.length == es.length then .ok (.prim (arrayText (bools.map (fun b => if b then "true" else "false"))), r)
         else .ok (.prim opaquePrim, r)
 
+/-! ### graph literals: `Graph { A -> [B: 2, C], B -> [C: -1.5], C }` -/
+
+/-- an edge of a graph literal: destination and its cost (`signed_number`: is there a `-`, the text of the number),
+if it has one -/
+structure GEdge where
+  to : String
+  cost : Option (Bool × String)
+  deriving Repr, DecidableEq, Inhabited
+/-- a node with its outgoing edges (`A -> []` and `A` are the same node) -/
+structure GNode where
+  name : String
+  edges : List GEdge
+  deriving Repr, DecidableEq, Inhabited
+
+/-- `Display for GraphEdge`: `to:cost` / `to` -/
+def edgeChars (e : GEdge) : List Char :=
+  match e.cost with
+  | some (neg, w) => e.to.toList ++ ':' :: ((if neg then ['-'] else []) ++ w.toList)
+  | none => e.to.toList
+/-- `Display for GraphNode`: `name -> [ e, e ]`, the bare name without edges -/
+def nodeChars (n : GNode) : List Char :=
+  match n.edges with
+  | [] => n.name.toList
+  | es => n.name.toList ++ " -> [ ".toList ++ joinCommaSpace (es.map edgeChars) ++ " ]".toList
+def joinNodes : List (List Char) → List Char
+  | [] => []
+  | [x] => x
+  | x :: y :: xs => x ++ ',' :: '\n' :: joinNodes (y :: xs)
+/-- `Display for Graph`: `Graph { }`, else one node per line, indented by four blanks -/
+def graphText (ns : List GNode) : String :=
+  match ns with
+  | [] => "Graph { }"
+  | _ => String.ofList ("Graph {\n".toList ++ joinNodes (ns.map fun n => "    ".toList ++ nodeChars n) ++ "\n}".toList)
+
+/-- `simple_variable = @{ "$"? ~ "_"* ~ LETTER ~ (LETTER | NUMBER)* }` on a word of the lexer (the lone `_` and a
+word that stands for an escaped name are none) -/
+def isSimpleWord (w : String) : Bool :=
+  match w.toList with
+  | '$' :: r => isSimpleRun r
+  | r => isSimpleRun r
+
+/-- the kind under which a graph with parallel edges is answered: the PEG accepts it, `parse_graph_node` refuses a
+duplicate destination (`blockKindErr` gives the class) -/
+def graphDupKind : String := "\u0001graph-parallel-edges"
+
+/-- `edges_list = { (edge ~ comma)* ~ edge? }` behind `[`, up to and including `]`;
+`edge = { simple_variable ~ (":" ~ signed_number)? }`, `signed_number = @{ "-"? ~ number }` -/
+def graphEdges : Nat → List Tok → List GEdge → Option (List GEdge × List Tok)
+  | 0, _, _ => none
+  | f+1, toks, acc =>
+    match toks with
+    | .rbrack :: r => some (acc, r)
+    | .word n :: r =>
+      if !(isSimpleWord n) then none else
+      let costed : Option (Bool × String) × List Tok :=
+        match r with
+        | .colon :: .minus :: .int s :: r' => (some (true, s), r')
+        | .colon :: .minus :: .float s :: r' => (some (true, s), r')
+        | .colon :: .int s :: r' => (some (false, s), r')
+        | .colon :: .float s :: r' => (some (false, s), r')
+        | _ => (none, r)
+      match costed.2 with
+      | .comma :: r2 => graphEdges f (skipNl r2) (acc ++ [⟨n, costed.1⟩])
+      | .rbrack :: r2 => some (acc ++ [⟨n, costed.1⟩], r2)
+      | _ => none
+    | _ => none
+
+/-- `graph_node = { simple_variable ~ ("->" ~ "[" ~ edges_list ~ "]")? }` -/
+def graphNode (toks : List Tok) : Option (GNode × List Tok) :=
+  match toks with
+  | .word n :: r =>
+    if !(isSimpleWord n) then none else
+    match r with
+    | .arrow :: .lbrack :: r1 =>
+      match graphEdges (r1.length + 1) r1 [] with
+      | some (es, r2) => some (⟨n, es⟩, r2)
+      | none => some (⟨n, []⟩, r)            -- the optional group fails: the bare name (what follows is then refused)
+    | _ => some (⟨n, []⟩, r)
+  | _ => none
+
+/-- `(comma ~ graph_node)* ~ nl* ~ "}"` -/
+def graphTail : Nat → List Tok → List GNode → Option (List GNode × List Tok)
+  | 0, _, _ => none
+  | f+1, toks, acc =>
+    match toks with
+    | .comma :: r =>
+      match graphNode (skipNl r) with
+      | some (n, r') => graphTail f r' (acc ++ [n])
+      | none => none
+    | _ =>
+      match skipNl toks with
+      | .rbrace :: r => some (acc, r)
+      | _ => none
+
+def hasDupEdge (es : List GEdge) : Bool :=
+  match es with
+  | [] => false
+  | e :: rest => rest.any (fun x => x.to == e.to) || hasDupEdge rest
+
+/-- `nl* ~ graph_node_list ~ nl* ~ "}"` behind `Graph {`: the nodes -/
+def graphNodes (toks : List Tok) : Option (List GNode × List Tok) :=
+  let r0 := skipNl toks
+  match graphNode r0 with
+  | some (n, r1) => graphTail (r1.length + 1) r1 [n]
+  | none => graphTail (r0.length + 1) r0 []
+
+/-- `graph = { ^"Graph" ~ "{" ~ nl* ~ graph_node_list ~ nl* ~ "}" }` behind `Graph {`, and `parse_graph_node` -/
+def graphLeaf (toks : List Tok) : Option (PExp × List Tok) :=
+  match graphNodes toks with
+  | some (ns, r) =>
+    if ns.any (fun n => hasDupEdge n.edges) then some (.block graphDupKind [], r) else some (.prim (graphText ns), r)
+  | none => none
+
 mutual
 /-- `tagged_exp`/`exp`, then `parse_exp` on its pairs -/
 def parseExp : Nat → List Tok → PRes (PExp × List Tok)
@@ -261,6 +374,13 @@ def wordRest : Nat → String → List Tok → PRes (PExp × List Tok)
       | .ok ([], _) => .ok (.var w, rest)
       | .ok (idx, r') => .ok (.cvar w idx, r')
       | .error e => .error e
+    | .lbrace :: r =>
+      -- `primitive`: `graph = { ^"Graph" ~ "{" … }` (reached when the block-function reading of `Graph { … }` fails)
+      if lowerWord w == "graph" then
+        match graphLeaf r with
+        | some res => .ok res
+        | none => wordLeaf w rest
+      else wordLeaf w rest
     | _ => wordLeaf w rest
 /-- `block_scoped_function` after `name "(" nl*`: `iteration_declaration_list ~ nl* ~ ")" ~ "{" ~ nl* ~ tagged_exp ~
 nl* ~ "}"` -/
@@ -436,7 +556,8 @@ def parseFuel (toks : List Tok) : Nat := 6 * toks.length + 10
 
 /-- `parse_block_function_type` / `exact_arity` -/
 def blockKindErr (k : String) (n : Nat) : Option String :=
-  if !(Gen.blockKinds.any (fun e => e.2 == k)) then some "unknown-block"
+  if k == graphDupKind then some "graph-parallel-edges"
+  else if !(Gen.blockKinds.any (fun e => e.2 == k)) then some "unknown-block"
   else match Gen.blockArity.find? (fun e => e.1 == k) with
     | some e => if n == e.2 then none else some "block-arity"
     | none => none
